@@ -84,3 +84,77 @@ def k3(I):
         return
     I.cover('both_ok', HINT)
     I.check('monotone_in_duration', r1.f[0] <= r2.f[0])
+
+
+# ---------------------------------------------------------------- handlers: weights move with positions, in step, from the next epoch
+
+from ..chain import Chain, bank_of
+from .fm import *
+from . import c05
+from .c07 import carry
+
+
+def _resolved(I, addr, epoch):
+    return carry(weights_of(I, addr, LP1), epoch)
+
+
+def _ob_weights(op):
+    def s(I):
+        b, X, v = c05.world(I)
+        # representation invariant: a user's weight is the sum of the weights of their open positions as filled
+        # (alice holds one position filled in one piece); the total covers it
+        wst, wr = I.try_call('calculate_weight', [Ref([coin_v(LP1, v['pa'])], 0), 30 * DAY], CR)
+        if wst != 'ok' or not is_ok(wr):
+            raise Infeasible()
+        wa0 = _resolved(I, 'alice', c05.E + 1)
+        I.assume(smt.Eq(wa0, wr.f[0]))
+        T0 = _resolved(I, FM, c05.E + 1)
+        before = {u: _resolved(I, u, c05.E + 1) for u in ('alice', 'bob', 'carol')}
+        cur_before = {u: _resolved(I, u, c05.E) for u in ('alice', 'bob', 'carol', FM)}
+        ch = Chain(I, CONTRACTS_FM)
+        st, _ = c05.run(I, ch, b, op, v)
+        I.observe('status', 'ok' if st == 'ok' else 'err')
+        for u in ('alice', 'bob', 'carol', FM):
+            for e in (c05.E, c05.E + 1):
+                snaps = dict(weights_of(I, u, LP1))
+                I.observe('snap:%s:%s:%d' % (u, LP1, e), snaps.get(e))
+        if st != 'ok':
+            I.outcome('rejected')
+            return
+        I.cover('ok', c05.HINT)
+        T1 = _resolved(I, FM, c05.E + 1)
+        after = {u: _resolved(I, u, c05.E + 1) for u in ('alice', 'bob', 'carol')}
+        du = sum((after[u] - before[u]) for u in after)
+        I.check('total_moves_exactly_with_the_users', smt.Eq(T1 - T0, du))
+        I.check('total_still_covers_the_users', T1 >= sum(after.values()))
+        for u in ('alice', 'bob', 'carol', FM):
+            if u == 'alice' and op in ('close_full', 'emergency_open'):
+                # a user who leaves an LP token entirely has the whole history cleared (reconcile_user_state); her rewards were
+                # claimed before closing, or are forfeited by an emergency exit (pinned by the suite) -- not asserted
+                continue
+            I.check('current_epoch_weights_untouched', smt.Eq(_resolved(I, u, c05.E), cur_before[u]))
+        if op in ('withdraw_unlocked', 'emergency_closed', 'claim', 'claim_until', 'create_farm', 'expand_farm', 'close_farm', 'close_lp_reward_farm'):
+            I.check('no_weight_change_without_an_open_position_change', smt.And(smt.Eq(T1, T0), smt.Eq(du, 0)))
+        if op == 'create_position':
+            amt = I.inputs['amount']
+            s2, r2 = I.try_call('calculate_weight', [Ref([coin_v(LP1, amt)], 0), 30 * DAY], CR)
+            I.check('new_position_adds_its_weight_from_next_epoch', smt.Eq(after['carol'], r2.f[0]))
+        if op in ('close_full', 'emergency_open'):
+            I.check('user_without_open_position_has_no_weight', smt.Eq(after['alice'], 0))
+            snaps = dict(weights_of(I, 'alice', LP1))
+            I.check('weight_history_cleared_when_no_open_position', len(snaps) == 0)
+    return s
+
+
+def _replay_w(op):
+    inner = c05._replay(op)
+    return inner
+
+
+for _op in c05.OPS:
+    obligation('C10', 'S1.weights_after_%s' % _op, entries=['execute', 'update_weights', 'get_latest_address_weight', 'reconcile_user_state', 'calculate_weight'],
+               kind='S', statement='%s: the total LP weight and the weight of the acting user recorded for the next epoch move by exactly the same amount (closed positions, '
+                                   'claims and farm operations move nothing); the weights in effect for the current epoch are untouched; the total still covers the users; '
+                                   'a user left without open positions has no weight and no history' % _op,
+               bounds='state of C05 with the weight of alice equal to the weight of her single-piece position; symbolic amounts', covers=['ok'],
+               replay=_replay_w(_op))(_ob_weights(_op))
